@@ -288,6 +288,8 @@ def gen_real_spec(rng, k):
         det.pop("zs", None)      # MieLens refuses detectors with several z planes (ValueError): an unsupported configuration
     passed, full = gen_optics(rng, det, tmatrix=tm)
     spec = dict(id=k, scat=sc, theory=th, det=det, optics=passed, scaling=gen_scaling(rng), channels=None)
+    if not tm and "illum_polarization" in passed and k % 4 == 1:
+        spec["pol_form"] = "xarray" if k % 8 == 1 else "ndarray"      # same vector, other accepted container
     if not points and rng.random() < 0.2 and fam in ("mie", "mie_ff", "layered", "mie_sup", "multisphere", "mielens"):
         # two illuminations: per-channel wavelength, polarisation and (mostly) scaling
         def shuffled():
@@ -360,6 +362,9 @@ def mock_theory():
 def build_scatterer(s):
     from holopy.scattering import Sphere, Spheres, Spheroid, Cylinder
     k = s["kind"]
+    if "n_im" in s:          # absorbing twin of a real-index particle (specs are JSON: the imaginary part has its own key)
+        s = dict(s, n=complex(s["n"], s["n_im"]))
+        del s["n_im"]
     if k == "sphere":
         return Sphere(n=s["n"], r=s["r"], center=tuple(s["center"]))
     if k == "layered":
@@ -425,11 +430,18 @@ def build_detector(d, channels=None):
     return det
 
 
-def conv_optics(o):
+def conv_optics(o, pol_form=None):
     out = {}
     for key, v in o.items():
         if key == "illum_polarization" and v is not None:
             v = {c: tuple(x) for c, x in v.items()} if isinstance(v, dict) else tuple(v)
+            if pol_form == "xarray" and not isinstance(v, dict):
+                # the vector-labelled form HoloPy itself keeps in metadata, here with the norm the request gives
+                import xarray as xr
+                v = xr.DataArray(list(v) + [0.0] * (3 - len(v)), dims="vector", coords={"vector": ["x", "y", "z"]})
+            elif pol_form == "ndarray" and not isinstance(v, dict):
+                import numpy as np
+                v = np.array(v, dtype=float)
         out[key] = v
     return out
 
@@ -439,7 +451,7 @@ def execute(spec, what=("field", "holo", "inten", "holo0")):
     from holopy.scattering import calc_holo, calc_field, calc_intensity
     det = build_detector(spec["det"], spec["channels"])
     sc = build_scatterer(spec["scat"])
-    kw = conv_optics(spec["optics"])
+    kw = conv_optics(spec["optics"], spec.get("pol_form"))
     out = {"det": det}
     scaling = spec["scaling"]
     zero = {c: 0.0 for c in scaling} if isinstance(scaling, dict) else 0.0
@@ -896,6 +908,13 @@ def gen_history_set(rng, n):
     return specs
 
 
+def _quiet():
+    """holopy installs an 'always' filter for OverlapWarning at import; the sibling sets shift and grow spheres on purpose"""
+    import warnings
+    from holopy.scattering.errors import OverlapWarning
+    warnings.filterwarnings("ignore", category=OverlapWarning)
+
+
 def gen_sibling_set(rng, fam):
     """a base request and its one-factor siblings: each differs from the base in exactly ONE input (detector z, origin,
     spacing, shape; particle size, index, position; medium, wavelength, polarisation, scaling, theory option).
@@ -948,6 +967,15 @@ def gen_sibling_set(rng, fam):
             sib(tgt + (key,), fn)
     if "r" in m0 and not isinstance(m0["r"], list):
         sib(tgt + ("r",), lambda v: v * 0.8)
+    if not isinstance(m0.get("n"), list):
+        # the same particle with absorption switched on / changed: only the IMAGINARY part of the index differs
+        for im in (0.05, 0.1):
+            q = _copy.deepcopy(base)
+            o = q["scat"]["members"][0] if members else q["scat"]
+            o["n_im"] = im
+            q["adjacent"] = True
+            sibs.append(q)
+        base["adjacent"] = True
     for k, q in enumerate(sibs):
         q["id"] = k
     return sibs
@@ -987,9 +1015,14 @@ def check_history(ctx, specs, tag, perms=3, alone=False):
     rng = ctx.subrng("history-order-" + tag)
     n = len(specs)
     ref, first_seen = {}, {}
-    for p in range(perms):
+    adj = [j for j, sp in enumerate(specs) if sp.get("adjacent")]
+    for p in range(perms + (1 if len(adj) >= 2 else 0)):
         order = [rng.randrange(n) for _ in range(n)] + list(range(n))      # repeats + everyone at least once
         rng.shuffle(order)
+        if p == perms:
+            # requests that differ in one input only, run back to back in every order of two (a one-entry memo whose key
+            # omits that input serves the second from the first)
+            order = [a for i in adj for j in adj if i != j for a in (i, j)]
         for pos, j in enumerate(order):
             d = digest(specs[j])
             ctx.explored += 1
@@ -1103,6 +1136,7 @@ def run(ctx):
     guarded(ctx, "prove", ctx.prove)
     lap("prove")
     boot.boot()
+    _quiet()
     guarded(ctx, "real", stage_real, ctx)
     lap("real")
     guarded(ctx, "mock", stage_mock, ctx)
@@ -1114,6 +1148,7 @@ def run(ctx):
 def replay(ctx, data):
     """re-run the stored failing request (or history) on the current tree"""
     boot.boot()
+    _quiet()
     d = data["data"]
     kind = d.get("kind")
     if kind == "real":
@@ -1133,5 +1168,6 @@ if __name__ == "__main__":
     if len(sys.argv) == 3 and sys.argv[1] == "--history-child":
         job = json.load(open(sys.argv[2]))
         boot.boot()
+        _quiet()
         print("DIGESTS " + json.dumps([digest(job["specs"][j]) for j in job["order"]]))
         sys.stdout.flush()
